@@ -23,10 +23,11 @@ func execOrthoRouting(g *graph.DGraph, routes []routableEdge, params graph.Param
 			if r.ns[i-1].IsVirtual {
 				sp[1] += layerh
 			}
-			r.Points = append(r.Points, sp)
-			r.Points = append(r.Points, [2]float64{sp[0], sp[1] + halfLayerSpacing})
-
 			ep := endPoint(r.ns[i])
+			// both elbows lie on the same horizontal line, half a layer spacing above the lower layer:
+			// the start node may be shorter than its layer, so its bottom is not a reliable reference
+			r.Points = append(r.Points, sp)
+			r.Points = append(r.Points, [2]float64{sp[0], ep[1] - halfLayerSpacing})
 			r.Points = append(r.Points, [2]float64{ep[0], ep[1] - halfLayerSpacing})
 			r.Points = append(r.Points, ep)
 		}
